@@ -126,6 +126,15 @@ fn sorted_keys(rng: &mut Rng, n: usize, universe: u64, strict: bool) -> Vec<u64>
     ks
 }
 
+/// Mirrors sorted keys to the top of the key type (k -> max - k), keeping them ascending: the largest
+/// key of the type (all ones) then plays the role that key 0 plays otherwise.
+fn mirror_to_top(ks: &mut Vec<u64>, max: u64) {
+    for k in ks.iter_mut() {
+        *k = max - *k;
+    }
+    ks.reverse();
+}
+
 /// all k-subsets of 0..u in ascending order
 fn subsets(u: usize, k: usize) -> Vec<Vec<u64>> {
     let mut out = vec![];
@@ -388,8 +397,12 @@ pub fn run(ctx: &Ctx) -> i32 {
                         _ => key_universe_max(&kt).min(1 << 20),
                     }
                     .max(n.max(m) as u64 + 1);
-                    let ka = sorted_keys(&mut crng, n, universe, true);
-                    let kb = if crng.chance(1, 6) && n == m { ka.clone() } else { sorted_keys(&mut crng, m, universe, true) };
+                    let mut ka = sorted_keys(&mut crng, n, universe, true);
+                    let mut kb = if crng.chance(1, 6) && n == m { ka.clone() } else { sorted_keys(&mut crng, m, universe, true) };
+                    if crng.chance(1, 3) {
+                        mirror_to_top(&mut ka, key_universe_max(&kt));
+                        mirror_to_top(&mut kb, key_universe_max(&kt));
+                    }
                     tuples.push(vec![
                         Val::Array(ka.iter().map(|k| elem_with_key(&mut crng, ea, *k, &prog.defs)).collect()),
                         Val::Array(kb.iter().map(|k| elem_with_key(&mut crng, eb, *k, &prog.defs)).collect()),
@@ -473,8 +486,12 @@ pub fn run(ctx: &Ctx) -> i32 {
                     }
                     .max(case.n.max(case.m) as u64 + 1);
                     let strict = case.assoc || rng.chance(2, 3);
-                    let ka = sorted_keys(&mut rng, case.n, universe, strict);
-                    let kb = if rng.chance(1, 6) && case.n == case.m { ka.clone() } else { sorted_keys(&mut rng, case.m, universe, strict) };
+                    let mut ka = sorted_keys(&mut rng, case.n, universe, strict);
+                    let mut kb = if rng.chance(1, 6) && case.n == case.m { ka.clone() } else { sorted_keys(&mut rng, case.m, universe, strict) };
+                    if rng.chance(1, 3) {
+                        mirror_to_top(&mut ka, key_universe_max(&kt));
+                        mirror_to_top(&mut kb, key_universe_max(&kt));
+                    }
                     inputs.push((
                         ka.iter().map(|k| elem_with_key(&mut rng, &case.ea, *k, &d)).collect(),
                         kb.iter().map(|k| elem_with_key(&mut rng, &case.eb, *k, &d)).collect(),
